@@ -14,9 +14,10 @@ func init() {
 }
 
 // HarnessC10: a = {scenario, closers (1 or 2), reader present 0/1}. Close is injected into
-//   0 an idle tunnel, 1 a pending Send (gateway silent), 2 a pending heartbeat exchange,
-//   3 a pending reconnect (heartbeat failed, gateway silent), 4 parked inbound deliveries
-//   (nobody reading), 5 a tunnel whose socket already died.
+//
+//	0 an idle tunnel, 1 a pending Send (gateway silent), 2 a pending heartbeat exchange,
+//	3 a pending reconnect (heartbeat failed, gateway silent), 4 parked inbound deliveries
+//	(nobody reading), 5 a tunnel whose socket already died.
 func HarnessC10(a []int) {
 	scenario, closers, withReader := a[0], a[1], a[2] == 1
 	sock := newVSock()
